@@ -152,11 +152,19 @@ def case(cid, rng):
                 lab1 = [int(v) + 1 for v in kde._sample_labels_]
                 w_in = np.asarray(w, float) / float(np.sum(w))
                 gw_in = np.array([w_in[[l == j + 1 for l in lab1]].sum() for j in range(ng)])
-                c["mix"] = {"id": cid + "-mix", "dim": dim, "cell": fq(np.asarray(cell, float) / s) if len(cell) else [],
-                            "D": fq(D / s), "G": fq(G / s), "Q": fq(Q / s), "wi": [int(v) for v in w], "nlw": fq(-np.log(w_in)),
+                # the mixture identity is checked in units of length chosen per fit (a power of two u, exact for the dyadic
+                # inputs) such that bandwidths and inverse bandwidths both stay inside the fixed-point range: lengths * u,
+                # H * u^2, H^-1 / u^2, ln det H + 2 D ln u, log-density - D ln u
+                hmax, imax = float(np.abs(H).max()), float(np.abs(Hinv).max())
+                e_ = int(np.clip(np.round(0.25 * np.log2(max(imax, 1e-12) / max(hmax, 1e-12))), -2, 1))
+                if np.abs(np.asarray(Q, float) / s).max() * 2.0 ** e_ > 400:
+                    e_ = min(e_, 0)
+                u = 2.0 ** e_
+                c["mix"] = {"id": cid + "-mix", "dim": dim, "cell": fq(np.asarray(cell, float) / s * u) if len(cell) else [],
+                            "D": fq(D / s * u), "G": fq(G / s * u), "Q": fq(np.asarray(Q, float) / s * u), "wi": [int(v) for v in w], "nlw": fq(-np.log(w_in)),
                             "nlgw": fq(-np.log(np.maximum(gw_in, 1e-300))), "labels": lab1,
-                            "H": [fq(h) for h in H], "Hinv": [fq(h) for h in Hinv], "logdet": fq(logdet),
-                            "kdecut": fq([kde.kdecut_squared])[0], "score": fq(ld)}
+                            "H": [fq(h * u * u) for h in H], "Hinv": [fq(h / (u * u)) for h in Hinv], "logdet": fq(logdet + 2 * dim * np.log(u)),
+                            "kdecut": fq([kde.kdecut_squared])[0], "score": fq(ld - dim * np.log(u)), "unit_exponent": e_}
             except Exception:
                 pass
             # symmetry routes (grid-point image shifts last, see known_findings.json)
